@@ -40,6 +40,8 @@ def cases(ctx):
                 prog = [{"op": "qalloc", "q": "q1"}, {"op": "rot", "axis": axis, "q": "q1", "n": {"tmpl": "t0"}, "d": 4},
                         {"op": "meas", "q": "q1", "to": {"kind": "new", "name": "m1"}, "inplace": v % 2 == 0}]
                 yield {"kind": "twin", "prog": prog, "values": {"t0": v}, "modes": ["pre"], "hardware": "generic", "script": [v % 2]}
+    for _ in range(ctx.n(150, 15000)):
+        yield rounds_case(rng, "nv" if rng.random() < 0.25 else "generic")
     for _ in range(ctx.n(140, 20000)):
         g = HostGen(rng, max_depth=rng.choice([2, 3]), allow_regs=False)
         g.templates = rng.choice([["t0"], ["t0", "t1"], ["t0", "t1", "angle"]])
@@ -59,6 +61,32 @@ def cases(ctx):
         alts = ["pre", "direct", "pre-late"] if nseg <= 3 else ["pre", "direct"]
         for modes in itertools.product(alts, repeat=nseg):
             yield {"kind": "twin", "prog": prog, "values": values, "modes": list(modes), "hardware": hw, "script": script}
+
+
+def rounds_case(rng, hw="generic"):
+    """The same templated body (the source text of every round is identical) compiled again and again on one connection, each
+    round instantiated with other values - the measure-and-feed-forward loop of a host program."""
+    nrounds = rng.choice([2, 3, 4])
+    nrot = rng.choice([2, 4, 6, 9])
+    body_spec = [(rng.choice("xyz"), rng.choice(["t0", "t1", "angle"]), rng.choice([1, 2, 3, 4])) for _ in range(nrot)]
+    extra = [rng.choice(["h", "x", "z", "s"]) for _ in range(rng.choice([0, 2, 5]))]
+    style = rng.choice(["reg", "array"])
+    prog, values = [], []
+    for r_ in range(nrounds):
+        q = f"q{r_}"
+        prog.append({"op": "qalloc", "q": q})
+        for axis, t, d in body_spec:
+            prog.append({"op": "rot", "axis": axis, "q": q, "n": {"tmpl": t}, "d": d})
+        for g in extra:
+            prog.append({"op": "gate", "g": g, "q": q})
+        to = {"kind": "reg", "name": f"mr{r_}"} if style == "reg" else {"kind": "new", "name": f"m{r_}"}
+        prog.append({"op": "meas", "q": q, "to": to, "inplace": False})
+        if r_ < nrounds - 1:
+            prog.append({"op": "flush"})
+        values.append({t: rng.choice([0, 1, 8, 16, 31, 255, rng.randrange(256)]) for t in ("t0", "t1", "angle")})
+    modes = [rng.choice(["pre", "pre", "direct", "pre-late"]) for _ in range(nrounds)]
+    return {"kind": "twin", "prog": prog, "values": values, "modes": modes, "hardware": hw, "script": [rng.randrange(2) for _ in range(8)],
+            "family": "identical-rounds"}
 
 
 def _has_template(stmts):
